@@ -49,6 +49,9 @@ pub struct BoundaryCase {
     pub boundary: usize,
     /// w starts at boundary - back
     pub back: usize,
+    /// number of bytes after w (0: the text ends with w)
+    #[serde(default)]
+    pub tail: usize,
 }
 
 #[derive(Clone, Debug, Hash, Serialize, Deserialize)]
@@ -344,7 +347,7 @@ fn boundary_text(c: &BoundaryCase) -> Vec<u8> {
     let start = c.boundary - c.back;
     let mut t = vec![b'x'; start];
     t.extend_from_slice(&c.w);
-    t.extend_from_slice(&[b'y'; 7]);
+    t.extend_from_slice(&vec![b'y'; c.tail]);
     t
 }
 
@@ -521,24 +524,27 @@ pub fn check(ctx: &Ctx) {
     );
     let ws = common::all_strings(&ABC, 4);
     let mut bc = Vec::new();
-    for &boundary in &[512usize, 1024, 8192, 16384] {
+    for &boundary in &[512usize, 1024, 1536, 8192, 16384] {
         for w in &ws {
             if w.is_empty() {
                 continue;
             }
             for back in 0..=w.len() {
-                bc.push(BoundaryCase {
-                    w: w.clone(),
-                    boundary,
-                    back,
-                });
+                for tail in [0usize, 1, 7] {
+                    bc.push(BoundaryCase {
+                        w: w.clone(),
+                        boundary,
+                        back,
+                        tail,
+                    });
+                }
             }
         }
     }
     ctx.run_space(
         "window_edges",
         true,
-        "x^a . w . y^7 with w over {CR,LF,x}, |w| <= 4, every alignment of w across offsets 512, 1024, 8192, 16384; hasher cuts at every position in/around w; NormalizedReader with 6 source and 4 consumer patterns; sign_text_data -> verify",
+        "x^a . w . y^t (t in {0,1,7}: the text may end exactly at the edge) with w over {CR,LF,x}, |w| <= 4, every alignment of w across offsets 512, 1024, 1536, 8192, 16384; hasher cuts at every position in/around w; NormalizedReader with 6 source and 4 consumer patterns; sign_text_data -> verify",
         bc.into_par_iter(),
         run_boundary,
     );
